@@ -193,6 +193,55 @@ fn c02(ctx: &Ctx, r: &mut Report) {
             }
         });
     }
+    // --- impl blocks: their own alphabet (what may stand in an impl block), all sequences without repetition
+    let ialpha = [
+        "fn a<D>(deps: &D) { let x = vec![1, 2]; x.len(); }",
+        "pub(crate) async fn b<D>(deps: &D, n: u8) -> u8 { n }",
+        "pub const fn c<D>(deps: &D) {}",
+        "pub unsafe extern \"C\" fn d(deps: &impl Any) {}",
+        "#[doc = \"x\"] #[inline] fn f(deps: &impl Any) -> i32 { match 1 { _ => { 2 } } }",
+        "const K: fn() = || {};",
+        "pub const N2: usize = { 1 } + 2;",
+        "type Alias = fn();",
+        "#[cfg(any())] pub fn decl(deps: &impl Any) -> u32;",
+        "#[cfg(any())] fn decl2<D>(deps: &D) where D: Sized;",
+        "mk! { fn made() {} }",
+        "mk!(1);",
+    ];
+    let imax = if ctx.tier == Tier::Thorough { 3 } else { 2 };
+    let mut ibodies: Vec<Vec<usize>> = vec![];
+    for n in 1..=imax {
+        ibodies.extend(sequences(ialpha.len(), n));
+    }
+    for body in ibodies {
+        let mut seen = std::collections::BTreeSet::new();
+        if !body.iter().all(|i| seen.insert(*i)) {
+            continue;
+        }
+        for attr in ["", "ref"] {
+            let text: Vec<&str> = body.iter().map(|i| ialpha[*i]).collect();
+            let item = format!("impl TrImpl for X {{ {} }}", text.join(" "));
+            let input = format!("#[entrait({})] {}", attr, item);
+            r.guarded(&input, |r| {
+                let out = expand(Variant::Entrait, attr, &item);
+                if let Some(e) = compile_error_of(&out) {
+                    r.fail("unexpected-error", &input, e);
+                    return;
+                }
+                let toks: Vec<TokenTree> = out.into_iter().collect();
+                let inner = match toks.get(2) {
+                    Some(TokenTree::Group(g)) if g.delimiter() == Delimiter::Brace && toks[0].to_string() == "impl" && toks[1].to_string() == "X" => g.stream(),
+                    _ => {
+                        r.fail("impl-shape", &input, "the expansion does not start with `impl X { .. }`".into());
+                        return;
+                    }
+                };
+                if !ts_eq(&inner, &ts(&text.join(" "))) {
+                    r.fail("impl-items-changed", &input, format!("the inherent impl does not contain exactly the original items: `{}`", inner));
+                }
+            });
+        }
+    }
     // --- impl blocks: items re-emitted inside an inherent impl
     for body in sequences(alpha.len(), 1).into_iter().chain(std::iter::once(vec![0, 5, 13])) {
         let text: Vec<&str> = body
